@@ -352,6 +352,94 @@ def rule_exempt(chk, prog):
         r.bad("addExemptGroupOfNodes", fn.where(), "assertion fails for valid groups: %s" % e)
 
 
+def rule_cluster_geometry(chk, prog):
+    """Cluster bounds and boundary variables: what generateSeparationConstraints and the containment constraints rely on."""
+    from ..microai.interp import default_obj
+    r = chk.rule("CLUSTER-BOUNDS", "Cluster::computeBoundingRect interpreted on the hierarchy root{ P{ Q{0,1}, 3 }, 2 } for several concrete "
+                 "rectangle layouts, margins and paddings: bounds(C) = padding(C) applied to the union of the member rectangles of C and "
+                 "of margin(child)-extended bounds of every child cluster (no member is dropped from the union)", floor=4)
+    fn = prog.fn("cola::Cluster::computeBoundingRect")
+    XB = {"vpsc::Rectangle::xBorder": Box(Fraction(0)), "vpsc::Rectangle::yBorder": Box(Fraction(0))}
+
+    def R(x, X, y, Y):
+        return Obj("vpsc::Rectangle", {"minX": Fraction(x), "maxX": Fraction(X), "minY": Fraction(y), "maxY": Fraction(Y), "overlap": False})
+
+    def box(v):
+        return default_obj(prog, "cola::Box", {"m_min": Vec([Fraction(v), Fraction(v)]), "m_max": Vec([Fraction(v), Fraction(v)])})
+
+    def cluster(cls, nodes, kids, margin, padding):
+        return default_obj(prog, cls, {"nodes": SetVal(nodes), "clusters": Vec(kids, "cola::Cluster *"), "m_margin": box(margin), "m_padding": box(padding),
+                                       "bounds": R(1, -1, 1, -1), "m_rectangle_index": -1})
+    layouts = [
+        [(0, 10, 0, 10), (20, 30, 0, 10), (100, 110, 100, 110), (50, 60, 40, 50)],
+        [(40, 50, 40, 50), (45, 70, 45, 60), (0, 5, 0, 5), (-30, -20, 10, 20)],
+        [(0, 10, 0, 10), (0, 10, 0, 10), (5, 6, 5, 6), (2, 3, 80, 90)],
+    ]
+    for li, lay in enumerate(layouts):
+        for margin, padding in ((0, 0), (3, 0), (0, 2), (4, 1)):
+            rs = Vec([R(*t) for t in lay], "vpsc::Rectangle *")
+            Q = cluster("cola::RectangularCluster", [0, 1], [], margin, padding)
+            P = cluster("cola::RectangularCluster", [3], [Q], margin, padding)
+            root = cluster("cola::RootCluster", [2], [P], 0, 0)
+            it = Interp(prog, Oracle([]), globals=dict(XB))
+            try:
+                it.call(fn, root, None, None, arg_values=[Box(rs)])
+            except (Unsupported, AssertFail) as e:
+                raise AnalysisBroken("Cluster::computeBoundingRect outside the interpreter subset: %s" % e)
+
+            def uni(rects):
+                return (min(t[0] for t in rects), max(t[1] for t in rects), min(t[2] for t in rects), max(t[3] for t in rects))
+
+            def grow(t, d):
+                return (t[0] - d, t[1] + d, t[2] - d, t[3] + d)
+            bQ = grow(uni([lay[0], lay[1]]), padding)
+            bP = grow(uni([grow(bQ, margin), lay[3]]), padding)
+            bR = uni([grow(bP, margin), lay[2]])
+            r.count()
+            bad = None
+            for nm, obj, want in (("Q", Q, bQ), ("P", P, bP), ("root", root, bR)):
+                b = obj.f["bounds"]
+                got = tuple(Fraction(b.f[k]) for k in ("minX", "maxX", "minY", "maxY"))
+                if got != tuple(Fraction(v) for v in want):
+                    bad = bad or "bounds of %s = %s, expected %s (union of its member rectangles and child-cluster bounds)" % (
+                        nm, tuple(str(v) for v in got), want)
+            (r.bad if bad else r.ok)("layout %d, margin %s, padding %s" % (li, margin, padding), fn.where(), bad or "")
+    r2 = chk.rule("CLUSTER-VARS", "Cluster::createVars interpreted on root{ A{} (empty), B{0,1}, C{ D{2} } }: in post-order every cluster -- "
+                  "empty ones included -- appends exactly its two boundary variables, clusterVarId is the index of the first, and "
+                  "vars[clusterVarId], vars[clusterVarId+1] are the cluster's own min / max variables: the numbering the containment and "
+                  "non-overlap constraints captured before stays valid", floor=2)
+    fc = prog.fn("cola::Cluster::createVars")
+    for dim in (0, 1):
+        rs = Vec([R(0, 10, 0, 10), R(20, 30, 0, 10), R(50, 60, 50, 60)], "vpsc::Rectangle *")
+        A = cluster("cola::RectangularCluster", [], [], 0, 0)
+        B = cluster("cola::RectangularCluster", [0, 1], [], 0, 0)
+        D = cluster("cola::RectangularCluster", [2], [], 0, 0)
+        C = cluster("cola::RectangularCluster", [], [D], 0, 0)
+        root = cluster("cola::RootCluster", [], [A, B, C], 0, 0)
+        it = Interp(prog, Oracle([]), globals=dict(XB))
+        base = 3
+        vars_ = Vec([Obj("vpsc::Variable", {"id": i}) for i in range(base)], "vpsc::Variable *")
+        try:
+            it.call(prog.fn("cola::Cluster::computeBoundingRect"), root, None, None, arg_values=[Box(rs)])
+            it.call(fc, root, None, None, arg_values=[dim, Box(rs), Box(vars_)])
+        except (Unsupported, AssertFail) as e:
+            raise AnalysisBroken("Cluster::createVars outside the interpreter subset: %s" % e)
+        order = [("A", A), ("B", B), ("D", D), ("C", C), ("root", root)]
+        r2.count()
+        bad = None
+        if len(vars_.items) != base + 2 * len(order):
+            bad = "%d variables after createVars for %d clusters (expected two per cluster, empty clusters included)" % (len(vars_.items) - base, len(order))
+        for k, (nm, c) in enumerate(order):
+            want = base + 2 * k
+            if c.f["clusterVarId"] != want:
+                bad = bad or "clusterVarId of %s is %s, expected %d (post-order, two variables per cluster)" % (nm, c.f["clusterVarId"], want)
+            else:
+                lo, hi = ("vXMin", "vXMax") if dim == 0 else ("vYMin", "vYMax")
+                if vars_.items[want] is not c.f[lo] or vars_.items[want + 1] is not c.f[hi]:
+                    bad = bad or "vars[clusterVarId] of %s is not the cluster's own boundary variable" % nm
+        (r2.bad if bad else r2.ok)("createVars dim %d" % dim, fc.where(), bad or "")
+
+
 def run(chk):
     prog = chk.load()
     rule_pairs(chk, prog)
@@ -359,3 +447,4 @@ def run(chk):
     rule_form(chk, prog)
     rule_sites(chk, prog)
     rule_wiring(chk, prog)
+    rule_cluster_geometry(chk, prog)
